@@ -404,3 +404,29 @@ package cms
 //@   loop 1 invariant out == nil || fresh(out)
 //@   assigns nothing
 //@   safety all
+
+// the remaining lookups of the CertPool interface, as the combined pool uses them (read-only, result allocated in the call). Trusted.
+//@ func (p CertPool) All() (result []Certificate)
+//@   trusted
+//@   requires p != nil
+//@   ensures fresh(result)
+//@   assigns nothing
+//@ func (p CertPool) ByIssuerAndSerial(raw []byte) (result []Certificate, err error)
+//@   trusted
+//@   requires p != nil
+//@   ensures fresh(result)
+//@   assigns nothing
+//@ func (cp *CombinedCertPool) All
+//@   props C20
+//@   requires cp != nil && (forall i :: 0 <= i && i < len(cp.certPools) ==> cp.certPools[i] != nil)
+//@   ensures "result-is-a-copy": result == nil || fresh(result)
+//@   loop 1 invariant out == nil || fresh(out)
+//@   assigns nothing
+//@   safety all
+//@ func (cp *CombinedCertPool) ByIssuerAndSerial
+//@   props C20
+//@   requires cp != nil && (forall i :: 0 <= i && i < len(cp.certPools) ==> cp.certPools[i] != nil)
+//@   ensures "result-is-a-copy": result0 == nil || fresh(result0)
+//@   loop 1 invariant out == nil || fresh(out)
+//@   assigns nothing
+//@   safety all
